@@ -295,6 +295,16 @@ def replay(path):
     hbin = fi.get("harness", "replica")
     common.cargo_build([hbin], "dev")
     o = common.run_impl(hbin, [fi["case"]], "dev")[0]
-    for i, ob in enumerate(o["obs"]):
+    for i, ob in enumerate(o.get("obs", [])):
         print(i, json.dumps(ob)[:400])
+    if d.get("what"):
+        print("recorded:", d["what"])
+    if hbin == "replica" and "obs" in o:
+        case = fi["case"]
+        if "_c" not in case:
+            case["_c"] = [(int(k), int(w)) for k, w in case["committee"]]
+        bad = predicates(case, o)
+        print("predicates on this run of the current code:", "all hold" if not bad else "")
+        for b in bad[:10]:
+            print("  FAILED", b)
     return 0
